@@ -222,13 +222,6 @@ Proof.
     intros H; inversion H. apply r_scoped_none, incl_nil_l.
 Qed.
 
-Lemma lone_ty_scoped fl a : src_field n fl = true -> lone_ty R args fl = Ok a -> incl (ftv a) V.
-Proof.
-  intros Hs. unfold lone_ty. destruct (f_type fl); intros H.
-  - inversion H. apply incl_nil_l.
-  - eapply incl_tran; [eapply name_of_scoped; exact H | eapply rdummies_rsubst; exact Hs].
-Qed.
-
 Lemma lone_field_src s fl : src_shape n s = true -> lone_field s = Some fl -> src_field n fl = true.
 Proof.
   destruct s as [|[|f [|? ?]]|]; cbn; intros Hs H; try discriminate. inversion H; subst.
@@ -255,17 +248,13 @@ Proof.
     destruct (v_shape v) as [|fs|fs] eqn:Hshape.
     + inversion H. apply incl_nil_l.
     + destruct (lone_field (STuple fs)) as [fl|] eqn:Hlone.
-      * destruct (f_skip fl); [inversion H; apply incl_nil_l|].
-        apply bind_ok in H as (y & Hy & H). inversion H. cbn. rewrite app_nil_r.
-        eapply lone_ty_scoped; [|exact Hy]. eapply lone_field_src; eassumption.
+      * destruct (f_skip fl); inversion H; cbn; rewrite ?app_nil_r; auto; apply incl_nil_l.
       * inversion H. cbn. rewrite app_nil_r. exact Hp.
     + cbn in H. inversion H. cbn. rewrite app_nil_r. exact Hp.
   - destruct (v_shape v) as [|fs|fs] eqn:Hshape.
     + inversion H. apply incl_nil_l.
     + destruct (lone_field (STuple fs)) as [fl|] eqn:Hlone.
-      * destruct (f_skip fl); [inversion H; apply incl_nil_l|].
-        apply bind_ok in H as (y & Hy & H). inversion H. cbn. rewrite app_nil_r.
-        eapply lone_ty_scoped; [|exact Hy]. eapply lone_field_src; eassumption.
+      * destruct (f_skip fl); inversion H; cbn; rewrite ?app_nil_r; auto; apply incl_nil_l.
       * inversion H. cbn. rewrite app_nil_r. exact Hp.
     + cbn in H. inversion H. cbn. rewrite app_nil_r. exact Hp.
   - inversion H; subst; exact Hp.
@@ -332,6 +321,31 @@ Proof.
     destruct (snd x); [apply bind_ok in Hxy as (z & _ & Hz); inversion Hz | inversion Hxy]; reflexivity. }
   split; [|exact Hnames]. rewrite Hnames.
   eapply gen_scoped in Hr; [|exact Henv|exact Hlk]. unfold dummies in Hr. rewrite flat_map_dummies in Hr. tauto.
+Qed.
+
+Lemma Forall2_in_r {A B} (P : A -> B -> Prop) l l' y : Forall2 P l l' -> In y l' -> exists x, In x l /\ P x y.
+Proof.
+  induction 1 as [|a b l l' Hab _ IH]; cbn; intros Hin; [contradiction|].
+  destruct Hin as [->|Hin]; [exists a; split; [left; reflexivity|exact Hab]|].
+  destruct (IH Hin) as (x & Hx & Hp). exists x. split; [right; exact Hx|exact Hp].
+Qed.
+
+(* the defaults written in the header mention only the declaration's own parameters, too *)
+Theorem decl_defaults_scoped : env_ok -> forall fuel id d dc, lookup R id = Some d ->
+  decl_of is_upper is_alnum is_numeric R fuel d = Ok dc ->
+  forall p x, In p (d_params dc) -> snd p = Some x -> incl (ftv x) (map fst (c_params (attrs_of d))).
+Proof.
+  intros Henv fuel id d dc Hlk H p x Hin Hx. unfold decl_of in H.
+  apply bind_ok in H as (r & Hr & H). apply bind_ok in H as (ps & Hps & H). inversion H; subst; clear H. cbn [d_params] in Hin.
+  apply omap_list_ok in Hps. destruct (Forall2_in_r _ _ _ _ Hps Hin) as (q & Hq & Hf).
+  pose proof (Henv _ _ Hlk) as Hsrc. unfold src_def in Hsrc.
+  apply andb_true_iff in Hsrc as [Hsrc _]. apply andb_true_iff in Hsrc as [_ Hdef].
+  rewrite forallb_forall in Hdef. specialize (Hdef q Hq).
+  destruct (snd q) as [dflt|]; [|inversion Hf; subst; discriminate].
+  apply bind_ok in Hf as (z & Hz & Hf). inversion Hf; subst. cbn in Hx. inversion Hx; subst.
+  eapply incl_tran; [eapply name_of_scoped; exact Hz|].
+  eapply incl_tran; [eapply rdummies_rsubst; exact Hdef|].
+  unfold dummies. rewrite flat_map_dummies. apply incl_refl.
 Qed.
 
 End Scoped.
